@@ -502,14 +502,27 @@ func (f *framer) payload() {
 }
 
 // reads a frame form the wire into the framers buffer
+// frameBodyReadError is returned by readFrame when the body of a frame could not be read
+// to its end: the reader is left in the middle of that frame.
+type frameBodyReadError struct {
+	read, want int
+	err        error
+}
+
+func (e *frameBodyReadError) Error() string {
+	return fmt.Sprintf("unable to read frame body: read %d/%d bytes: %v", e.read, e.want, e.err)
+}
+
+func (e *frameBodyReadError) Unwrap() error { return e.err }
+
 func (f *framer) readFrame(r io.Reader, head *frameHeader) error {
 	if head.length < 0 {
 		return fmt.Errorf("frame body length can not be less than 0: %d", head.length)
 	} else if head.length > maxFrameSize {
 		// need to free up the connection to be used again
-		_, err := io.CopyN(ioutil.Discard, r, int64(head.length))
+		n, err := io.CopyN(ioutil.Discard, r, int64(head.length))
 		if err != nil {
-			return fmt.Errorf("error whilst trying to discard frame with invalid length: %v", err)
+			return &frameBodyReadError{read: int(n), want: head.length, err: err}
 		}
 		return ErrFrameTooBig
 	}
@@ -554,7 +567,7 @@ func (f *framer) readFrame(r io.Reader, head *frameHeader) error {
 		f.buf = buf
 	}
 	if err != nil {
-		return fmt.Errorf("unable to read frame body: read %d/%d bytes: %v", n, head.length, err)
+		return &frameBodyReadError{read: n, want: head.length, err: err}
 	}
 
 	if head.flags&flagCompress == flagCompress {
